@@ -41,12 +41,12 @@ func (s Sel) Matches(l map[string]string) bool {
 			if _, ok := l[k[1:]]; !ok {
 				return false
 			}
-		case strings.HasSuffix(k, "!"):
-			if w, ok := l[k[:len(k)-1]]; ok && w == v {
+		case strings.HasSuffix(k, "!"): // NotIn; v is a comma-separated value list
+			if w, ok := l[k[:len(k)-1]]; ok && inList(v, w) {
 				return false
 			}
-		case strings.HasSuffix(k, "="):
-			if w, ok := l[k[:len(k)-1]]; !ok || w != v {
+		case strings.HasSuffix(k, "="): // In
+			if w, ok := l[k[:len(k)-1]]; !ok || !inList(v, w) {
 				return false
 			}
 		default:
@@ -56,6 +56,15 @@ func (s Sel) Matches(l map[string]string) bool {
 		}
 	}
 	return true
+}
+
+func inList(list, w string) bool {
+	for _, x := range strings.Split(list, ",") {
+		if x == w {
+			return true
+		}
+	}
+	return false
 }
 
 func (s Sel) LS() metav1.LabelSelector {
@@ -73,9 +82,9 @@ func (s Sel) LS() metav1.LabelSelector {
 		case strings.HasPrefix(k, "?"):
 			ls.MatchExpressions = append(ls.MatchExpressions, metav1.LabelSelectorRequirement{Key: k[1:], Operator: metav1.LabelSelectorOpExists})
 		case strings.HasSuffix(k, "!"):
-			ls.MatchExpressions = append(ls.MatchExpressions, metav1.LabelSelectorRequirement{Key: k[:len(k)-1], Operator: metav1.LabelSelectorOpNotIn, Values: []string{v}})
+			ls.MatchExpressions = append(ls.MatchExpressions, metav1.LabelSelectorRequirement{Key: k[:len(k)-1], Operator: metav1.LabelSelectorOpNotIn, Values: strings.Split(v, ",")})
 		case strings.HasSuffix(k, "="):
-			ls.MatchExpressions = append(ls.MatchExpressions, metav1.LabelSelectorRequirement{Key: k[:len(k)-1], Operator: metav1.LabelSelectorOpIn, Values: []string{v}})
+			ls.MatchExpressions = append(ls.MatchExpressions, metav1.LabelSelectorRequirement{Key: k[:len(k)-1], Operator: metav1.LabelSelectorOpIn, Values: strings.Split(v, ",")})
 		default:
 			if ls.MatchLabels == nil {
 				ls.MatchLabels = map[string]string{}
